@@ -280,10 +280,10 @@ func estimate(p plan, steps map[int]int) float64 {
 			total += float64(steps[b])
 		}
 		if p.spec.Scenario == ScCopyBefore || p.spec.Scenario == ScCopyDuring {
-			total += 85
+			total += 165
 		}
 		if p.spec.Scenario == ScCopyOnly {
-			total += 64
+			total += 85
 		}
 	}
 	e := 1.0
